@@ -1,34 +1,29 @@
-use dverif::sim::cluster::*;
-use dverif::sim::record::*;
+//! Worker binary. `dverif <check> key=value ...` runs one shard of a check and writes a JSON
+//! shard report to `out=<file>` (or stdout).
+
+use std::path::PathBuf;
+
+use dverif::util::Args;
 
 fn main() {
-    let args: Vec<String> = std::env::args().collect();
-    let seed: u64 = args.get(1).and_then(|s| s.parse().ok()).unwrap_or(1);
-    let scratch = std::path::PathBuf::from(format!("/tmp/dverif-{}", std::process::id()));
+    let argv: Vec<String> = std::env::args().collect();
+    if argv.len() < 2 {
+        eprintln!("usage: dverif <check> [key=value ...]");
+        std::process::exit(2);
+    }
+    let check = argv[1].clone();
+    let args = Args::parse(&argv[2..]);
+    let scratch = PathBuf::from(args.str(
+        "scratch",
+        &format!("/tmp/dverif-scratch-{}", std::process::id()),
+    ));
+    let _ = std::fs::create_dir_all(&scratch);
+    // d-engine prints role transitions etc. on stdout; keep our report separate
+    let report = dverif::checks::run(&check, &args, &scratch);
     let _ = std::fs::remove_dir_all(&scratch);
-    std::fs::create_dir_all(&scratch).unwrap();
-    let rt = tokio::runtime::Builder::new_current_thread().enable_all().start_paused(true).build().unwrap();
-    let wall = std::time::Instant::now();
-    rt.block_on(async {
-        let mut c = Cluster::<FileKind>::new(Params::default(), seed, &scratch);
-        c.bootstrap().await.unwrap();
-        let l = c.wait_leader(5000).await;
-        println!("leader {:?} at {}", l, c.now());
-        let cl = c.client();
-        if let Some(l) = l {
-            for i in 0..20u32 {
-                let (_, r) = cl.write(1, l, ClientOp::Put { key: b"k".to_vec(), value: format!("v{i}").into_bytes(), ttl: None }, 2000).await;
-                if i < 3 { println!("{:?}", r); }
-            }
-            let (_, r) = cl.read(1, l, vec![b"k".to_vec()], Some("linearizable"), "cmd", 2000).await;
-            println!("read {:?}", r);
-        }
-        c.sleep(500).await;
-        println!("events {} virtual {}ms", c.rec.len(), c.now());
-        for r in c.rec.snapshot().iter().take(60) { println!("{}", ev_json(r)); }
-        c.shutdown_all().await;
-    });
-    Cluster::<FileKind>::uninstall_hooks();
-    println!("wall {:?}", wall.elapsed());
-    let _ = std::fs::remove_dir_all(&scratch);
+    let js = serde_json::to_string(&report.to_json()).unwrap();
+    match args.kv.get("out") {
+        Some(p) => std::fs::write(p, js).expect("write report"),
+        None => println!("REPORT {js}"),
+    }
 }
